@@ -25,7 +25,7 @@ def event(ctx, lc, o, seq, ctype, size, ua, w, s, ws, need):
     out = common.call(o.get_linear_complexity, ctype, size if ua is None else 20, kw, w, s, ws)
     ctx.evaluations += 1
     e = {"q": "complexity", "type": str(ctype).upper() if isinstance(ctype, str) else "?", "knowntype": isinstance(ctype, str) and ctype.upper() in ("WF", "LC", "LZW"),
-         "size": size if ua is None else 0, "ua": ua_json(ua) if ua is not None else {"A": "A"}, "w": w, "s": s, "ws": ws,
+         "size": int(size) if ua is None else 0, "ua": ua_json(ua) if ua is not None else {"A": "A"}, "w": int(w), "s": int(s), "ws": int(ws),
          "exc": out[0] != "ok", "pos": [], "rv": [], "iso": []}
     if out[0] != "ok":
         return e
@@ -36,6 +36,7 @@ def event(ctx, lc, o, seq, ctype, size, ua, w, s, ws, need):
     e["pos"] = [int(p) for p in pk[0]]
     e["rv"] = [common.fx(v) for v in pk[1]]
     if e["knowntype"] and w <= N:
+        w, s = int(w), int(s)
         K = (N - w) // s + 1
         for j in range(min(K, len(pk[1]))):
             win = seq[j * s:j * s + w]
@@ -45,8 +46,8 @@ def event(ctx, lc, o, seq, ctype, size, ua, w, s, ws, need):
                 ctx.violation("complexity-locality", {"seq": seq, "window": win, "type": ctype}, expected="one value for the window alone", actual=iso)
                 return None
             e["iso"].append(common.fx(pi[1][0]))
-        k = len(set(ua.values())) if ua is not None else size
-        need.add((k, w))
+        k = len(set(ua.values())) if ua is not None else int(size)
+        need.add((k, int(w)))
     return e
 
 
@@ -108,11 +109,16 @@ def run(ctx):
             w = ctx.rng.choice([1, N, ctx.rng.randint(1, N), ctx.rng.randint(1, min(N, 15)), 10 if N >= 10 else N])
             s = ctx.rng.choice([1, 1, ctx.rng.randint(1, N), ctx.rng.randint(1, max(1, w + 3))])
             ws = ctx.rng.randint(1, 6) if ctype == "LC" else 3
+            if ctx.rng.random() < 0.35:
+                import numpy as np           # integer arguments may arrive as numpy integers
+                w, s, ws = np.int64(w), np.int64(s), np.int64(ws)
+                if ua is None:
+                    size = np.int64(size)
             e = event(ctx, lc, o, seq, ctype, size, ua, w, s, ws, need)
             if e:
                 ev.append(e)
-                ctx.nontrivial.add((seq[:30], ctype.upper(), size if ua is None else tuple(sorted(ua.items())), w, s))
-        for bad_type, w in (("XX", 1), ("RHP", 1), (None, 1), ("WF", N + 1), ("LC", N + 2), ("LZW", N + 3)):
+                ctx.nontrivial.add((seq[:30], ctype.upper(), int(size) if ua is None else tuple(sorted(ua.items())), int(w), int(s)))
+        for bad_type, w in (("XX", 1), ("RHP", 1), (None, 1), ("", 1), ("W", 1), ("LZ", 1), ("L", 1), ("LC,", 1), ("WF ", 1), ("WF", N + 1), ("LC", N + 2), ("LZW", N + 3)):
             e = event(ctx, lc, o, seq, bad_type, 20, None, w, 1, 3, need)
             if e:
                 ev.append(e)
